@@ -8,6 +8,9 @@ import SigmaVerif.Model.SStr
   stand for wildcards, everything else is itself; a quoted literal ends at the first unescaped
   quote.
 * `reRead`/`reMatch` — the reading of the regular-expression fragment `to_regex` emits.
+* `decodeField` — the target language's reading of a rendered field name; a quoted name is read
+  strictly (`readQuotedField`): escape-aware, and the first unescaped quote string ends the name,
+  so text after it means the name was terminated early (`none`).
 Written from the property statement, not from the code.
 -/
 namespace SigmaVerif.SStrSpec
@@ -174,8 +177,8 @@ def reMatch (re : Str) (x : Str) : Option Bool :=
 
 /-! ## Field names -/
 
-/-- target reading of a rendered field name: strip the quotes, an escape string makes the next
-character literal -/
+/-- target reading of an UNQUOTED rendered field name: an escape string makes the next character
+literal -/
 def unescapeField (c : FieldCfg) : Nat → Str → Option Str
   | _, [] => some []
   | 0, _ => none
@@ -189,14 +192,45 @@ def unescapeField (c : FieldCfg) : Nat → Str → Option Str
       | none => (unescapeField c f rest).map (ch :: ·)
     | none => (unescapeField c f rest).map (ch :: ·)
 
+/-- STRICT target reading of a quoted field name after its opening quote, up to and including the
+closing quote `q` (non-empty).  At every position: (1) the escape string followed by a character
+is that character, literally; (2) otherwise the quote string ENDS the name here — this must be the
+end of the text, an unescaped quote before the end has terminated the name early (`none`);
+(3) otherwise a plain character.  Running out of text without a closing quote is `none`.
+(The escape is tried before the quote, so a language that escapes the quote by doubling it — escape
+string = quote string — is read correctly; for the usual disjoint escape/quote the order is
+immaterial.) -/
+def readQuotedField (c : FieldCfg) (q : Str) : Nat → Str → Option Str
+  | 0, _ => none
+  | f+1, t =>
+    let esc : Option (Char × Str) :=
+      match c.escape with
+      | some e => if e.isEmpty then none else
+          match stripPrefix e t with
+          | some (d :: r) => some (d, r)
+          | _ => none
+      | none => none
+    match esc with
+    | some (d, r) => (readQuotedField c q f r).map (d :: ·)
+    | none =>
+      match stripPrefix q t with
+      | some [] => some []              -- closing quote at the very end
+      | some (_ :: _) => none           -- an unescaped quote before the end terminates the name early
+      | none =>
+        match t with
+        | [] => none                    -- no closing quote
+        | ch :: rest => (readQuotedField c q f rest).map (ch :: ·)
+
+/-- target reading of a rendered field name.  Quoted (a non-empty quote string is configured and
+the name was emitted quoted): the opening quote, then `readQuotedField`.  Otherwise (no quote
+configured, the configuration said not to quote this name, or the quote string is empty): the
+escape-aware reading of the whole text. -/
 def decodeField (c : FieldCfg) (quoted : Bool) (t : Str) : Option Str :=
   match c.quote, quoted with
   | some q, true =>
+    if q.isEmpty then unescapeField c (t.length + 1) t else
     match stripPrefix q t with
-    | some r =>
-      if r.length < q.length then none else
-      let body := r.take (r.length - q.length)
-      if r.drop (r.length - q.length) == q then unescapeField c (body.length + 1) body else none
+    | some r => readQuotedField c q (r.length + 1) r
     | none => none
   | _, _ => unescapeField c (t.length + 1) t
 
